@@ -553,7 +553,126 @@ def _one_shot_stores(ix: Index, m):
                 what = '%s(..)' % d.dotted.split('.', 1)[1]
         if what:
             out.append((f, x, what))
+    # ... or handed to a constructor / function that keeps its parameter in an attribute
+    for x in ast.walk(m.tree):
+        if not isinstance(x, ast.Call):
+            continue
+        f = m.enclosing_func(x)
+        one_shot_args = []
+        for i, a in enumerate(x.args):
+            w = _one_shot_expr(ix, m, f, a)
+            if w:
+                one_shot_args.append((i, None, a, w))
+        for kw in x.keywords:
+            if kw.arg:
+                w = _one_shot_expr(ix, m, f, kw.value)
+                if w:
+                    one_shot_args.append((None, kw.arg, kw.value, w))
+        if not one_shot_args:
+            continue
+        try:
+            d = ix.callee(m, f, x)
+        except Exception:
+            d = None
+        target = util.ctor_of(ix, d) if isinstance(d, ClassDef) else d if isinstance(d, FuncDef) else None
+        if target is None:
+            continue
+        skip = 1 if (isinstance(d, ClassDef) or (target.cls is not None and not target.is_static
+                                                 and isinstance(x.func, ast.Attribute))) else 0
+        pos = [p_.arg for p_ in target.positional_params()[skip:]]
+        for i, kwname, a, w in one_shot_args:
+            pname = kwname if kwname is not None else (pos[i] if i < len(pos) else None)
+            if pname is None:
+                continue
+            attr = _kept_in_attribute(ix, target, pname, 0)
+            # kept AND traversed as a whole by a method that can be called again (handing out one element per call
+            # with next(..) - the step executors' instruction environments - is the accepted one-at-a-time idiom)
+            if attr and target.cls is not None and _traversed_by_a_method(ix, target.cls, attr.split('.', 1)[1]):
+                out.append((f, _FakeAssign(a, '%s (parameter %s of %s)' % (attr, pname, target.key.split(':')[-1])),
+                            w + ', given to %s' % (d.name if isinstance(d, ClassDef) else target.name)))
     return out
+
+
+class _FakeAssign:
+    """stands for the store made by the callee: `targets[0]` names the attribute, lineno is the call site's"""
+
+    def __init__(self, arg_node, attr_text):
+        self.lineno = arg_node.lineno
+        self.targets = [ast.Name(id=attr_text, ctx=ast.Load())]
+
+
+def _one_shot_expr(ix: Index, m, f, v):
+    v = util.resolve_temp(f, v) if f is not None else v
+    if isinstance(v, ast.GeneratorExp):
+        return 'a generator expression'
+    if isinstance(v, ast.Call):
+        try:
+            d = ix.callee(m, f, v)
+        except Exception:
+            d = None
+        if isinstance(d, FuncDef) and d.is_generator and not d.decorators:
+            return 'the generator %s(..)' % d.name
+        if isinstance(d, External) and d.dotted in ONE_SHOT_CONSTRUCTORS:
+            return '%s(..)' % d.dotted.split('.', 1)[1]
+    return None
+
+
+def _traversed_by_a_method(ix: Index, cls: ClassDef, attr: str) -> bool:
+    """some method other than the constructor (of the class or a class in its hierarchy) iterates over self.<attr> as
+    a whole: a for loop, a comprehension, or list / tuple / sorted / any / all / sum / join over it"""
+    def is_attr(e, f):
+        return isinstance(e, ast.Attribute) and e.attr == attr and isinstance(e.value, ast.Name) and e.value.id == f.self_name
+
+    classes = [cls] + [k for k in ix.mro(cls)[1:] if isinstance(k, ClassDef)] + list(ix.subclasses_of(cls))
+    for k in classes:
+        for f in k.methods.values():
+            if f.name in ('__init__', '__new__') or not f.self_name:
+                continue
+            for n in ast.walk(f.node):
+                if isinstance(n, (ast.For, ast.AsyncFor)) and is_attr(n.iter, f):
+                    return True
+                if isinstance(n, ast.comprehension) and is_attr(n.iter, f):
+                    return True
+                if isinstance(n, ast.Call) and n.args and is_attr(n.args[0], f):
+                    fn = n.func
+                    nm = fn.id if isinstance(fn, ast.Name) else fn.attr if isinstance(fn, ast.Attribute) else None
+                    if nm in ('list', 'tuple', 'sorted', 'any', 'all', 'sum', 'join', 'set', 'frozenset', 'max', 'min',
+                              'len', 'dict'):
+                        return True
+    return False
+
+
+def _kept_in_attribute(ix: Index, fd: FuncDef, pname: str, depth: int):
+    """the attribute `self.<a>` that fd assigns directly from its parameter pname (also through super().__init__)"""
+    if depth > 3 or not fd.self_name:
+        return None
+    for n in walk_own(fd.node):
+        if isinstance(n, ast.Assign) and isinstance(n.value, ast.Name) and n.value.id == pname:
+            for tg in n.targets:
+                if isinstance(tg, ast.Attribute) and isinstance(tg.value, ast.Name) and tg.value.id == fd.self_name:
+                    return 'self.' + tg.attr
+        if isinstance(n, ast.Call) and isinstance(n.func, ast.Attribute) and n.func.attr == '__init__' \
+                and isinstance(n.func.value, ast.Call) and isinstance(n.func.value.func, ast.Name) \
+                and n.func.value.func.id == 'super' and fd.cls is not None:
+            base_init = None
+            for k in ix.mro(fd.cls)[1:]:
+                if isinstance(k, ClassDef) and k.methods.get('__init__') is not None:
+                    base_init = k.methods['__init__']
+                    break
+            if base_init is None:
+                continue
+            bp = [p_.arg for p_ in base_init.positional_params()[1:]]
+            for i, a in enumerate(n.args):
+                if isinstance(a, ast.Name) and a.id == pname and i < len(bp):
+                    r = _kept_in_attribute(ix, base_init, bp[i], depth + 1)
+                    if r:
+                        return r
+            for kw in n.keywords:
+                if kw.arg and isinstance(kw.value, ast.Name) and kw.value.id == pname:
+                    r = _kept_in_attribute(ix, base_init, kw.arg, depth + 1)
+                    if r:
+                        return r
+    return None
 
 
 def clause_g(c: Check):
@@ -565,8 +684,6 @@ def clause_g(c: Check):
     n_mod = 0
     found = 0
     for name in ix.all_module_names():
-        if 'self.' not in ix.text(name):
-            continue
         m = ix.module(name)
         n_mod += 1
         for f, x, what in _one_shot_stores(ix, m):
